@@ -954,6 +954,40 @@ pub fn preps() -> Vec<(&'static str, Vec<u8>)> {
     push(&mut c, &[15, 368]);
     c.push(WCVTF);
     v.push(("scanctrl-wcvt", c));
+    // combinations of the INSTCTRL selectors (1: inhibit grid fitting, here above 20 ppem; 2: default
+    // graphics state in glyph programs, with SCVTCI 0 so that the bit is observable; 3: native ClearType)
+    let sel1 = |c: &mut Vec<u8>| {
+        c.push(MPPEM);
+        push(c, &[20]);
+        c.push(GT);
+        c.push(IF);
+        push(c, &[1, 1]);
+        c.push(INSTCTRL);
+        c.push(EIF);
+    };
+    let sel2 = |c: &mut Vec<u8>| {
+        push(c, &[0]);
+        c.push(SCVTCI);
+        push(c, &[2, 2]);
+        c.push(INSTCTRL);
+    };
+    let sel3 = |c: &mut Vec<u8>| {
+        push(c, &[4, 3]);
+        c.push(INSTCTRL);
+    };
+    let mut c = vec![];
+    sel2(&mut c);
+    sel3(&mut c);
+    v.push(("instctrl2+3-scvtci0", c));
+    let mut c = vec![];
+    sel3(&mut c);
+    sel1(&mut c);
+    v.push(("instctrl1+3", c));
+    let mut c = vec![];
+    sel2(&mut c);
+    sel3(&mut c);
+    sel1(&mut c);
+    v.push(("instctrl1+2+3-scvtci0", c));
     v
 }
 
